@@ -53,3 +53,10 @@ if os.path.exists(rp):
     print("|---|---|---|---|")
     for k, v in sorted(json.load(open(rp)).items()):
         print("| %s | %s | %s | %s |" % (k, v["property"], v["pinned_suite_passes"], ", ".join(v["caught_by"]) or "**none**"))
+
+print("\n### Property-preserving refactorings (soundness; /verif/refactors/<id>/)\n")
+print("| refactoring | pinned suite passes | checks run | false alarms |")
+print("|---|---|---|---|")
+for d in sorted(glob.glob(os.path.join(ROOT, "refactors/*/result.json"))):
+    m = json.load(open(d))
+    print("| %s | %s | %d | %s |" % (m["refactoring"], m.get("pinned_suite_passes"), len(m["checks"]), ", ".join(m.get("false_alarms", [])) or "none"))
